@@ -1,6 +1,6 @@
 (** C09 — atom operations are atomic, never lose updates and never hang. *)
 From Coq Require Import Permutation.
-From Lisp Require Import Base ConcAtom ConcAtomProofs LinCheck LinCheckProofs Lockset LocksetProofs ConcPins.
+From Lisp Require Import Base ConcAtom ConcAtomProofs LinCheck LinCheckProofs Lockset LocksetProofs PinsCommon PinsAtom.
 From Lisp.Gen Require Import ConcActions.
 
 (** the model interprets exactly the action sequences of today's source (regenerated each run) *)
@@ -11,12 +11,12 @@ Theorem C09_source_print : conc_Atom_LispPrint = expected_print. Proof. exact pr
 
 (** every function of concurrent.go, on every path, accesses Atom.Val (and the future flags) only
     while holding the object's lock in a sufficient mode, and returns with its locks balanced *)
-Theorem C09_lock_discipline : discipline conc_shared conc_all conc_entry_points = true.
-Proof. exact conc_discipline. Qed.
+Theorem C09_lock_discipline : discipline val_shared conc_all conc_entry_points = true.
+Proof. exact atom_discipline. Qed.
 Theorem C09_accesses_guarded : forall name code, In (name, code) conc_all ->
   exists m, forall tr r, LocksetProofs.run (parse code) tr r ->
-    accesses_guarded conc_shared (final_table conc_shared conc_all) (mkL m None) tr.
-Proof. exact conc_accesses_guarded. Qed.
+    accesses_guarded val_shared (final_table val_shared conc_all) (mkL m None) tr.
+Proof. exact (all_fn_ok_guarded val_shared conc_all atom_all_fn_ok). Qed.
 
 (** LINEARIZABILITY, for any number of threads, any programs of deref / reset! / swap! (with update
     functions that may fail), any schedule: the atom holds the replay of the linearisation history
